@@ -146,4 +146,55 @@ theorem steps_fit {tOut : K} {taus : List K} (hpos : ∀ τ ∈ taus, 0 < τ) (h
   rw [List.sum_append, List.sum_cons] at hsum
   linarith
 
+/-- the model's `sgn` (`t/|t|`, or `0` when `|t| = 0`) is `t / |t|` with the field's convention `0/0 = 0` -/
+theorem expmv_sgn_eq (t : K) :
+    (if (ordArith ip sq rp).lt (ordArith ip sq rp).zero ((ordArith ip sq rp).abs t) then
+      (ordArith ip sq rp).div t ((ordArith ip sq rp).abs t) else (ordArith ip sq rp).zero) = t / |t| := by
+  show (if decide ((0 : K) < |t|) = true then t / |t| else 0) = t / |t|
+  by_cases h : (0 : K) < |t|
+  · simp [h]
+  · have : t = 0 := by simpa using h
+    simp [this]
+
+/-- `expmv` for a vector of non-zero norm: the loop runs from `t_now = 0`, `tau = |t|` to `t_out = |t|` -/
+theorem expmv_eq_of_ne (f : E → E) (expm : List (List K) → List (List K))
+    (ctrl : σ → CtrlIn K → CtrlOut K × σ) (mem0 : σ) (fuel size : Nat) (v : E) (t tol : K) (ncv : Nat)
+    (herm normalize : Bool) (hv : sq (ip v v) ≠ 0) :
+    expmv (ordArith ip sq rp) f expm ctrl mem0 fuel size v t tol ncv herm normalize =
+      match expmvLoop (ordArith ip sq rp) f expm ctrl tol herm (min 30 size) (t / |t|) |t| fuel
+        { tNow := 0, tau := |t|, ncv := max 1 ncv, ks := none, v := ((1 : K) / sq (ip v v)) • v,
+          normv := sq (ip v v), mem := mem0, steps := [], nf := 0 } with
+      | none => .error .index
+      | some st => .ok { v := if normalize then st.v else st.normv • st.v, steps := st.steps, nf := st.nf,
+                         ncv := st.ncv } := by
+  have hz : (ordArith ip sq rp).isZero (norm (ordArith ip sq rp) v) = false := by
+    show decide (sq (ip v v) = 0) = false
+    simpa using hv
+  unfold expmv
+  dsimp only
+  rw [hz, expmv_sgn_eq]
+  simp only [Bool.false_and, Bool.false_eq_true, if_false]
+  rfl
+
+/-- `expmv` for a vector of zero norm: `t_out = 0` -/
+theorem expmv_eq_of_zero (f : E → E) (expm : List (List K) → List (List K))
+    (ctrl : σ → CtrlIn K → CtrlOut K × σ) (mem0 : σ) (fuel size : Nat) (v : E) (t tol : K) (ncv : Nat)
+    (herm normalize : Bool) (hv : sq (ip v v) = 0) :
+    expmv (ordArith ip sq rp) f expm ctrl mem0 fuel size v t tol ncv herm normalize =
+      if normalize then .error .zeroVector else
+      match expmvLoop (ordArith ip sq rp) f expm ctrl tol herm (min 30 size) (t / |t|) 0 fuel
+        { tNow := 0, tau := |t|, ncv := max 1 ncv, ks := none, v := v,
+          normv := sq (ip v v), mem := mem0, steps := [], nf := 0 } with
+      | none => .error .index
+      | some st => .ok { v := if normalize then st.v else st.normv • st.v, steps := st.steps, nf := st.nf,
+                         ncv := st.ncv } := by
+  have hz : (ordArith ip sq rp).isZero (norm (ordArith ip sq rp) v) = true := by
+    show decide (sq (ip v v) = 0) = true
+    simpa using hv
+  unfold expmv
+  dsimp only
+  rw [hz, expmv_sgn_eq]
+  simp only [Bool.true_and, if_true]
+  rfl
+
 end YModel.Krylov
